@@ -4,6 +4,14 @@ import json, sys
 pid, n = sys.argv[1], (sys.argv[2] if len(sys.argv) > 2 else "2")
 wt = sys.argv[3] if len(sys.argv) > 3 else f"/tmp/wt/{pid}"
 p = next(json.loads(l) for l in open('/verif/properties.jsonl') if json.loads(l)['id'] == pid)
+import glob, os
+taken = []
+for m in sorted(glob.glob(f'/verif/seeded/{pid}_*/meta.json')):
+    taken.append(json.load(open(m)).get('summary', ''))
+start = len(taken) + 1
+avoid = ""
+if taken:
+    avoid = "\nOther engineers have ALREADY produced the following changes for this property; yours must be different in kind (other code sites, other mechanisms), not variations of them:\n" + "".join(f"  - {t}\n" for t in taken) + f"Number your changes starting at {start} (directories {pid}_{start}, {pid}_{start+1}, ...).\n"
 print(f"""You are helping to evaluate a verification effort for the Python library byuccl/spydrnet (a pure-Python FPGA netlist framework). You work ONLY inside the scratch git worktree {wt} (a checkout of the library). Do not read or touch /repo, /verif or any other directory; do not look for verification machinery anywhere.
 
 Here is a semantic property the library is supposed to satisfy:
@@ -14,6 +22,7 @@ Here is a semantic property the library is supposed to satisfy:
   quantifier: {p['quantifier']['text']}
   code it is anchored in: {', '.join(p['anchors']['files'])}
 
+{avoid}
 Your task: produce {n} DIFFERENT, independent, realistic source changes ("seeded bugs") to the library code under {wt}/spydrnet, each of which
   (a) breaks the property above (a user relying on the statement would be wronged),
   (b) still imports/compiles and still passes the ENTIRE existing test-suite, run as:
@@ -22,7 +31,7 @@ Your task: produce {n} DIFFERENT, independent, realistic source changes ("seeded
   (c) needs something SPECIFIC to manifest: a particular multi-step sequence of operations, an unusual input, a particular order of calls, a refused call at a particular point, or two cooperating sites that each look fine alone. Do NOT make changes that ordinary use exposes at once (e.g. breaking the basic effect of a common call). Prefer bugs of the kind a real maintainer could plausibly introduce in a refactoring or optimisation (a lost update in a rarely used branch, a stale cache entry, an off-by-one in an index, a wrong variable in a rarely used path, a missing rollback, a changed order of two statements).
 Each change must be small (a few lines), must only touch files under spydrnet/ (not tests, not examples), and must be a behaviour change, not a crash-on-import.
 
-For each change i (1..{n}) deliver, in the directory {wt}/_seeded/{pid}_<i>/ :
+For each change i deliver, in the directory {wt}/_seeded/{pid}_<i>/ :
   - patch.diff : output of `git diff` for that change alone relative to the unchanged tree (so that `git apply patch.diff` on a clean checkout reproduces it);
   - demo.py : a small standalone program, run as `cd {wt} && EXAMPLE_NETLISTS_PATH={wt}/example_netlists /venv/bin/python _seeded/{pid}_<i>/demo.py`, that uses only the public API of spydrnet, exits 0 and prints PASS on the unchanged tree, and exits 1 and prints FAIL (with a short explanation of what was observed) with the change applied. The demo must check something the property statement actually promises.
   - meta.json : {{"property": "{pid}", "summary": "<one sentence: what the change does>", "needs": "<what specific sequence/input/condition it needs in order to manifest>", "files": [...], "tests_passed": true}}
